@@ -507,10 +507,11 @@ class Proj:
     hdr[id] = {'name', 'v', 'inc': [ids]}   (a header includes only headers with a larger id -> acyclic)
     src[i]  = {'k', 'inc': [ids]}"""
 
-    def __init__(self, rng, rep, special=True, nsrc=None, nhdr=None):
+    def __init__(self, rng, rep, special=True, nsrc=None, nhdr=None, pch=False):
         self.rng, self.rep = rng, rep
         self.special = special
         self.hdr, self.src = {}, {}
+        self.pch = None          # {'inc': [ids]}: a precompiled header pch.h, force-included into every source
         self.next_h = 0
         self.next_s = 0
         self.files = {}          # relative path -> content, as last written
@@ -518,6 +519,15 @@ class Proj:
             self.add_header()
         for _ in range(nsrc if nsrc is not None else rng.randint(2, 5)):
             self.add_source()
+        if pch:
+            # one header reachable ONLY through the precompiled header, plus possibly shared ones
+            only = self.add_header()
+            for o in list(self.hdr.values()) + list(self.src.values()):
+                o['inc'] = [c for c in o['inc'] if c != only]
+            self.pch = {'inc': [only] + rng.sample([h for h in self.hdr if h != only], rng.randint(0, 1))}
+
+    def includers(self):
+        return list(self.hdr.values()) + list(self.src.values()) + ([self.pch] if self.pch else [])
 
     # -- names
     def fresh_name(self, force=None):
@@ -565,14 +575,18 @@ class Proj:
                 todo.extend(self.hdr[x]['inc'])
         return seen
 
+    def pch_files(self):
+        return ({'pch.h'} | {self.hdr[h]['name'] for h in self.hclosure(self.pch['inc'])}) if self.pch else set()
+
     def closure_files(self, s):
-        return {'s%d.c' % s} | {self.hdr[h]['name'] for h in self.hclosure(self.src[s]['inc'])}
+        return {'s%d.c' % s} | {self.hdr[h]['name'] for h in self.hclosure(self.src[s]['inc'])} | self.pch_files()
 
     def hval(self, h):
         return self.hdr[h]['v'] + sum(self.hval(c) for c in self.hdr[h]['inc'])
 
     def expected_output(self):
-        return sum(s['k'] + sum(self.hval(h) for h in s['inc']) for s in self.src.values())
+        return sum(s['k'] + sum(self.hval(h) for h in s['inc']) for s in self.src.values()) + \
+            (sum(self.hval(h) for h in self.pch['inc']) if self.pch else 0)
 
     # -- text
     def render(self):
@@ -588,9 +602,16 @@ class Proj:
             t += 'int f%d(void) { return %d%s; }\n' % (i, s['k'], ''.join(' + V%d' % c for c in s['inc']))
             if i == first:
                 t += '#include <stdio.h>\n' + ''.join('int f%d(void);\n' % j for j in self.src if j != i)
-                t += 'int main(void) { printf("%%d\\n", 0%s); return 0; }\n' % ''.join(' + f%d()' % j for j in self.src)
+                t += 'int main(void) { printf("%%d\\n", 0%s%s); return 0; }\n' % (
+                    ''.join(' + f%d()' % j for j in self.src), ' + VPCH' if self.pch else '')
             out['s%d.c' % i] = t
-        out['build.bfg'] = "executable('prog', files=[%s])\n" % ', '.join("'s%d.c'" % i for i in sorted(self.src))
+        if self.pch:
+            out['pch.h'] = ''.join('#include "%s"\n' % self.hdr[c]['name'] for c in self.pch['inc']) + \
+                '#define VPCH (0%s)\n' % ''.join(' + V%d' % c for c in self.pch['inc'])
+            out['build.bfg'] = "pch = precompiled_header(file='pch.h')\nexecutable('prog', files=[%s], pch=pch)\n" % \
+                ', '.join("'s%d.c'" % i for i in sorted(self.src))
+        else:
+            out['build.bfg'] = "executable('prog', files=[%s])\n" % ', '.join("'s%d.c'" % i for i in sorted(self.src))
         return out
 
     # -- edits; each returns a description
@@ -623,7 +644,7 @@ class Proj:
                 h = rng.choice(hs)
                 nm = self.hdr[h]['name']
                 del self.hdr[h]
-                for o in list(self.hdr.values()) + list(self.src.values()):
+                for o in self.includers():
                     o['inc'] = [c for c in o['inc'] if c != h]
                 return [k, nm]
             if k == 'ren_hdr' and hs:
@@ -634,12 +655,13 @@ class Proj:
             if k == 'add_inc' and hs:
                 h = rng.choice(hs)
                 cands = [o for j, o in self.hdr.items() if j < h and h not in o['inc']] + \
-                        [o for o in self.src.values() if h not in o['inc']]
+                        [o for o in self.src.values() if h not in o['inc']] + \
+                        ([self.pch] if self.pch and h not in self.pch['inc'] else [])
                 if cands:
                     rng.choice(cands)['inc'].append(h)
                     return [k, self.hdr[h]['name']]
             if k == 'del_inc':
-                cands = [o for o in list(self.hdr.values()) + list(self.src.values()) if o['inc']]
+                cands = [o for o in self.includers() if o['inc']]
                 if cands:
                     o = rng.choice(cands)
                     o['inc'].remove(rng.choice(o['inc']))
@@ -781,7 +803,9 @@ def run_history(rep, seed, idx, cc, nedits, risky=None):
     try:
         run_ = SysRun(root, cc)
         if risky is None:
-            proj = Proj(rng, rep)
+            proj = Proj(rng, rep, pch=(idx % 4 in (1, 2)))      # half of the histories use a precompiled header (both compilers)
+            if proj.pch:
+                rep.count('sys:history with precompiled header')
         else:
             proj = Proj(rng, None, special=False, nsrc=2, nhdr=2)
             h = proj.add_header(force=risky)
@@ -796,6 +820,8 @@ def run_history(rep, seed, idx, cc, nedits, risky=None):
 
         def check_build(step, dirty, expect_all=False):
             cur = {'s%d.c' % s: proj.closure_files(s) for s in proj.src}
+            if proj.pch:
+                cur['pch.h'] = proj.pch_files()          # the precompiled header is a compile step of its own
             predicted = {s for s in cur if expect_all or s not in listed or (listed[s] & dirty)}
             p, compiled, _ = run_.make()
             ok = True
@@ -826,7 +852,12 @@ def run_history(rep, seed, idx, cc, nedits, risky=None):
             return ok
 
         for e in range(nedits if check_build('initial', set()) else 0):
-            if risky is None:
+            if risky is None and proj.pch and e == 0 and proj.pch['inc'] and proj.pch['inc'][0] in proj.hdr:
+                # first a change of the header that is reachable only through the precompiled header
+                h0 = proj.pch['inc'][0]
+                proj.hdr[h0]['v'] += rng.randint(1, 5)
+                ed = ['mod_hdr', proj.hdr[h0]['name']]
+            elif risky is None:
                 ed = proj.edit()
             else:               # fixed scenario: touch the risky header, then stop including it and delete it
                 hid = max(proj.hdr)
@@ -835,7 +866,7 @@ def run_history(rep, seed, idx, cc, nedits, risky=None):
                 elif e == 1:
                     nm = proj.hdr[hid]['name']
                     del proj.hdr[hid]
-                    for o in list(proj.hdr.values()) + list(proj.src.values()):
+                    for o in proj.includers():
                         o['inc'] = [c for c in o['inc'] if c != hid]
                     ed = ['del_hdr', nm]
                 else:
@@ -850,7 +881,7 @@ def run_history(rep, seed, idx, cc, nedits, risky=None):
             # clean removes every product (objects, depfiles, program); the next build recreates all of them
             p, _, _ = run_.make('clean')
             mine = {'prog'} | {'s%d.c.o' % i for i in proj.src} | {'s%d.o' % i for i in proj.src} | \
-                   {'s%d.o.d' % i for i in proj.src}        # products of the CURRENT sources (a renamed source's old object is not one)
+                   {'s%d.o.d' % i for i in proj.src} | ({'pch.h.gch', 'pch.h.gch.d'} if proj.pch else set())        # products of the CURRENT sources (a renamed source's old object is not one)
             left = [f for r, _, fs in os.walk(run_.bld) for f in fs if f in mine]
             if p.returncode != 0 or left:
                 fails.append({'step': 'clean', 'what': 'clean failed or left products behind', 'left': left,
@@ -971,7 +1002,7 @@ def run(rep):
     rbad += stage_r_makesem(rep, rng, 300 if thorough else 40)
     load_local_findings(rep)
     found = stage_oracle_depfix(rep, rng, 600 if thorough else 120)
-    found += stage_system(rep, 10 if thorough else 2, 30 if thorough else 5,
+    found += stage_system(rep, 12 if thorough else 3, 30 if thorough else 5,
                           (list(RISKY) if thorough else ['%', ':']) + ['$', '#', ' '] + (["'", ',', '('] if thorough else []))
     if dis and not found:
         # the tie is broken but the ordinary budget found no failing input: search with a 10x budget
